@@ -375,3 +375,75 @@ Definition probe_ok (pk : packet) (wan : bool) : bool :=
 
 (* a bitmap as the domain matcher returns it: MaxMatchSetLen/32 words of 32 bits *)
 Definition bitmap_ok (w : list N) : bool := Nat.eqb (List.length w) 32 && forallb (fun x => x <? 2 ^ 32) w.
+
+(* ====================================================================================================== *)
+(* the builder as a state machine: ControlPlane takes a KernspaceSnapshot of the builder, and in any order *)
+(* (first start: install, then BuildUserspace; staged reload: BuildUserspace, then CommitPreparedDatapath;  *)
+(* RebuildReloadDatapath: install again later) builds the userspace matcher from the builder and installs   *)
+(* the kernel state from the snapshot                                                                       *)
+(* ====================================================================================================== *)
+
+Inductive bstep := BSnapshot | BUserspace | BInstall.
+
+(* one call of buildRoutingKernspace: what it was given and the state it started from *)
+Record ilog := { il_rules : list mset; il_tries : list (list prefix128); il_ring : N; il_km : kmaps }.
+
+Record bworld := {
+  bw_rules : list mset;                       (* RoutingMatcherBuilder.compiledRules / rules *)
+  bw_tries : list (list prefix128);           (* RoutingMatcherBuilder.simulatedLpmTries *)
+  bw_snap : option (list mset * list (list prefix128));   (* routingKernspaceSnapshot held by the ControlPlane *)
+  bw_matcher : option matcher;                (* the RoutingMatcher in use *)
+  bw_ring : N;                                (* globalNextLpmIndex *)
+  bw_km : kmaps;                              (* the kernel maps *)
+  bw_log : list ilog }.                       (* buildRoutingKernspace calls, oldest first *)
+
+Definition E_NO_RULES : N := 22.    (* "no routing rules to build" *)
+
+(* buildRoutingKernspace over a snapshot: reserve the ring slots, then install *)
+Definition do_install (ring : N) (km : kmaps) (rules : list mset) (tries : list (list prefix128)) : res (N * N * kmaps) :=
+  match rules with
+  | [] => Err E_NO_RULES
+  | _ => match reserve ring (N.of_nat (List.length tries)) with
+         | Err e => Err e
+         | Ok (alloc, next) => match install km rules tries alloc with
+                               | Ok km' => Ok (alloc, next, km')
+                               | Err e => Err e       (* the ring stays advanced: see bstep_run *)
+                               end
+         end
+  end.
+
+(* `alias` = false: the snapshot is a value (what the code has to guarantee).  `alias` = true models a snapshot that
+   shares the builder's slice of prefix lists with a BuildUserspace that releases each list once its trie is built. *)
+Definition bstep_run (alias : bool) (w : bworld) (s : bstep) : bworld :=
+  match s with
+  | BSnapshot =>
+    {| bw_rules := bw_rules w; bw_tries := bw_tries w; bw_snap := Some (bw_rules w, bw_tries w); bw_matcher := bw_matcher w;
+       bw_ring := bw_ring w; bw_km := bw_km w; bw_log := bw_log w |}
+  | BUserspace =>
+    match build_userspace {| b_rules := bw_rules w; b_tries := bw_tries w; b_domsets := []; b_dedup := [] |} with
+    | Err _ => w
+    | Ok mt =>
+      {| bw_rules := []; bw_tries := [];        (* b.rules = nil; b.simulatedLpmTries = nil; ... *)
+         bw_snap := if alias then match bw_snap w with Some (r, t) => Some (r, map (fun _ => []) t) | None => None end else bw_snap w;
+         bw_matcher := Some mt; bw_ring := bw_ring w; bw_km := bw_km w; bw_log := bw_log w |}
+    end
+  | BInstall =>
+    match bw_snap w with
+    | None => w
+    | Some (r, t) =>
+      let entry := {| il_rules := r; il_tries := t; il_ring := bw_ring w; il_km := bw_km w |} in
+      let ring' := match r with
+                   | [] => bw_ring w
+                   | _ => match reserve (bw_ring w) (N.of_nat (List.length t)) with Ok (_, next) => next | Err _ => bw_ring w end
+                   end in
+      {| bw_rules := bw_rules w; bw_tries := bw_tries w; bw_snap := bw_snap w; bw_matcher := bw_matcher w;
+         bw_ring := ring';
+         bw_km := match do_install (bw_ring w) (bw_km w) r t with Ok (_, _, km') => km' | Err _ => bw_km w end;
+         bw_log := bw_log w ++ [entry] |}
+    end
+  end.
+
+Definition brun (alias : bool) (steps : list bstep) (w : bworld) : bworld := fold_left (bstep_run alias) steps w.
+
+Definition bworld0 (ms : list mset) (tries : list (list prefix128)) (ring : N) (km : kmaps) : bworld :=
+  {| bw_rules := ms; bw_tries := tries; bw_snap := None; bw_matcher := None; bw_ring := ring; bw_km := km; bw_log := [] |}.
